@@ -41,7 +41,7 @@ impl Conds {
     pub fn holds(&self) -> bool {
         self.signed && self.us_payee && self.payees_close && self.fresh && self.paid && self.for_this_address
     }
-    fn label(&self) -> String {
+    pub(crate) fn label(&self) -> String {
         let mut v = vec![];
         if !self.signed {
             v.push("forged-quote-signature");
@@ -262,9 +262,15 @@ impl Check for C03 {
         tier.pick(Duration::from_secs(200), Duration::from_secs(1500))
     }
     fn required_counters(&self, _tier: Tier) -> Vec<&'static str> {
-        vec!["uploads:all-conditions-hold", "uploads:quote-for-other-address", "uploads:not-paid-on-chain", "uploads:payee-not-close", "unpaid-uploads", "rpc-calls"]
+        vec!["uploads:all-conditions-hold", "uploads:quote-for-other-address", "uploads:not-paid-on-chain", "uploads:payee-not-close", "unpaid-uploads", "rpc-calls", "realnet:uploads:valid-payment", "realnet:uploads:faulty-payment"]
+    }
+    fn lane_cases(&self, tier: Tier) -> u64 {
+        tier.pick(6, 48)
     }
     fn run_case(&self, cx: &mut Cx) {
+        if cx.index >= LANE_BASE {
+            return crate::realcases::c03_case(cx);
+        }
         let root = scratch_dir("c03");
         let (mut sim, env) = node_sim(cx, &root, 0);
         let stub_calls = |sim: &Sim| sim.stub.as_ref().map(|s| s.calls.load(std::sync::atomic::Ordering::SeqCst)).unwrap_or(0);
